@@ -192,6 +192,6 @@ def run(tier, seed):
 
 
 def replay(path, seed):
-    c = Check(PROP, "quick", seed, "model_checking")
+    c = Check(PROP, "quick", seed, "model_checking", replay=True)
     c.validate("signer", "SignerTrace", "SignerTrace.cfg", os.path.abspath(path), timeout=3000, heap="8g")
     return c.finish()
